@@ -274,7 +274,7 @@ def validate_case(case, prop_id, out_dir, K=None, timeout_ms=None, range_bound=3
   return {'text': text, 'results': res, 'family': case.family, 'notes': case.notes}
 
 
-def selftest_case(case, rnd, ntrials=3, K=2, with_ref=True):
+def selftest_case(case, rnd, ntrials=3, K=2, with_ref=True, hi=3, key_hi=None):
   """Serval-style validation of both evaluators against real SQLite on concrete seeded
   databases.  -> list of problems (empty = fine), number of comparisons made."""
   problems = []
@@ -296,8 +296,10 @@ def selftest_case(case, rnd, ntrials=3, K=2, with_ref=True):
       for t, cols in schema.items():
         rs = []
         for _i in range(rnd.randint(0, K)):
-          rs.append(tuple((None if (t, c) in case.nullable and rnd.random() < 0.3
-                           else rnd.randint(-1, 3)) for c in cols))
+          row = [(None if (t, c) in case.nullable and rnd.random() < 0.3 else rnd.randint(-1, hi)) for c in cols]
+          if key_hi is not None and row[0] is not None:
+            row[0] = rnd.randint(0, key_hi)      # few distinct keys: groups with several rows
+          rs.append(tuple(row))
         rows[t] = rs
       s = z3.Solver()
       s.add(*D.constraints)
